@@ -57,6 +57,8 @@ type World struct {
 	regexMu   sync.Mutex
 	regexes   map[string]*RegexInfo
 	Names     map[string]*fnNames // names recorded from the unchanged tree (names.go)
+	nwMu      sync.Mutex
+	nwMemo    map[string]bool
 }
 
 func LoadWorld(repo string) (*World, error) {
